@@ -27,7 +27,7 @@ RULE = ("random release tables (1-12 rows, 1-5 distinct times on the model time 
         "time-typed particle variable, header in file or names in configuration, X/Y or lon/lat), discrete and continuous "
         "(frequency 1-4 steps), forward and reversed, still water, output every step. Non-trivial: at least two release "
         "events at different steps or rows outside the window or mult != 1; distinct by (mode, direction, step/mult pattern).")
-MANDATORY = ["lonlat_position_on_off_diagonal_subgrid", "integer_column_beyond_2_to_53", "discrete_release_with_frequency_entry", "file_with_XY_and_lonlat", "table_with_17_or_more_rows_several_per_time", "release_after_particles_were_removed", "discrete_forward", "discrete_reversed", "continuous_forward", "continuous_reversed",
+MANDATORY = ["time_typed_column_with_mixed_iso_precisions", "lonlat_position_on_off_diagonal_subgrid", "integer_column_beyond_2_to_53", "discrete_release_with_frequency_entry", "file_with_XY_and_lonlat", "table_with_17_or_more_rows_several_per_time", "release_after_particles_were_removed", "discrete_forward", "discrete_reversed", "continuous_forward", "continuous_reversed",
              "row_before_start", "row_at_or_after_stop", "mult_zero", "mult_gt1", "several_rows_per_time", "lonlat_position",
              "names_in_config", "particle_variable_column", "release_hook_events", "time_typed_column_values", "column_with_configured_default"]
 ASSUMPTIONS = ["release times on the model time grid and sorted in simulation order (as the property quantifies)",
@@ -122,7 +122,11 @@ def gen_case(seed: int, idx: int) -> dict[str, Any]:
                 elif e[0] == "lat":
                     row.append(float(np.round(60.0 + 0.01 * (y - 1.2), 6)))
                 elif e[1] == "time":
-                    row.append(str(tadd(start, -int(rng.integers(0, 10**6)))))
+                    tv = tadd(start, -int(rng.integers(0, 10**6)))
+                    if idx % 3 != 1:  # the rows spell their times at different ISO 8601 precisions (date, hour, minute, second)
+                        unit = ["s", "D", "h", "m", "s"][int(rng.integers(5))]
+                        tv = np.datetime64(tv, unit)
+                    row.append(str(tv))
                 else:
                     row.append(float(np.round(rng.uniform(0, 10), 4)))
             rows.append(row)
@@ -348,6 +352,8 @@ def run_case(case: dict[str, Any], wd: Path) -> dict[str, Any]:
                 ref0 = np.datetime64(files[-1].time_units.split("since")[1].strip(), "s")
                 want_t = float((np.datetime64(d[name], "s") - ref0) / np.timedelta64(1, "s"))
                 sit["time_typed_column_values"] = sit.get("time_typed_column_values", 0) + 1
+                if len({len(str(r[cols.index(name)])) for r in case["rows"]}) > 1:
+                    sit["time_typed_column_with_mixed_iso_precisions"] = sit.get("time_typed_column_with_mixed_iso_precisions", 0) + 1
                 if got is None or abs(float(got) - want_t) > 1e-6 or "since" not in files[-1].pvar_units.get(name, ""):
                     V.append(C.viol(f"pid {pid}: time-typed column {name} = {got} ({files[-1].pvar_units.get(name)!r}), row {e['row']} says {d[name]} = {want_t} s after the reference time"))
                     break
